@@ -274,6 +274,7 @@ func opIndex(name string) int {
 }
 
 func propC06(c *Ctx) {
+	propScaleValues(c, "C06")
 	pool := valuePool()
 	var all []*variants.Variant
 	for _, tn := range typeNames {
@@ -641,6 +642,7 @@ func roundTrips(c *Ctx, a *variants.Variant) {
 }
 
 func propC07(c *Ctx) {
+	propScaleValues(c, "C07")
 	pool := valuePool()
 	var all []*variants.Variant
 	for _, tn := range typeNames {
